@@ -416,6 +416,8 @@ def scenarios(rng, tier):
     def fresh(prefix):
         nonlocal n
         n += 1
+        if prefix == "ans" and n % 3 == 0:
+            return "ans%d%%d%%s%%25-x" % n      # answers are opaque: must come back byte for byte (also over the legacy endpoint)
         return "%s%d" % (prefix, n)
 
     nats = ["unrestricted", "restricted", "unknown"]
@@ -456,7 +458,8 @@ def scenarios(rng, tier):
             sids = []
             for j, ld in enumerate(loads):
                 sid = fresh("sid"); sids.append(sid)
-                sc.poll(j * 200, sid, rng.choice(["unrestricted", "unrestricted", "restricted", "unknown"]), clients=ld)
+                sc.poll(j * 200, sid, rng.choice(["unrestricted", "unrestricted", "restricted", "unknown"]), clients=ld,
+                        ptype=rng.choice(["standalone", "webext", "badge", "iptproxy"]))
             for j in range(3):
                 sc.client(1500 + j * 400, rng.choice(cnats), "{%s}" % fresh("o"), mode=rng.choice(modes))
             for j, sid in enumerate(sids):
@@ -466,9 +469,11 @@ def scenarios(rng, tier):
         for loads in ([15, 9], [9, 15], [23, 17, 16], [7, 1, 3]):
             sc = Scen(fresh("bucket"), "least-loaded-same-bucket")
             sids = []
+            types = ["standalone", "webext", "badge", "standalone"]
             for j, ld in enumerate(loads):
                 sid = fresh("sid"); sids.append(sid)
-                sc.poll(j * 200, sid, "unrestricted", clients=ld)
+                # the least loaded proxy is never a standalone one here
+                sc.poll(j * 200, sid, "unrestricted", clients=ld, ptype=("webext" if ld == min(loads) else types[j % 4]))
             sc.client(1500, "restricted", "{%s}" % fresh("o"))
             sc.client(1900, "unknown", "{%s}" % fresh("o"), mode="a")
             for j, sid in enumerate(sids):
@@ -483,7 +488,8 @@ def scenarios(rng, tier):
         sc.poll(0, fresh("sid"), "unrestricted"); sc.client(300, "unrestricted", "{%s}" % fresh("o"), mode="l")
         S.append(sc)
         # poll timeout, then a client is refused
-        sc = Scen(fresh("idle"), "poll-timeout"); sc.poll(0, fresh("sid"), "unrestricted"); sc.client(10600, "restricted", "{%s}" % fresh("o")); S.append(sc)
+        for pn, cn in [("unrestricted", "restricted"), ("unknown", "unrestricted"), ("restricted", "unrestricted"), ("", "unrestricted")]:
+            sc = Scen(fresh("idle"), "poll-timeout"); sc.poll(0, fresh("sid"), pn); sc.client(10600, cn, "{%s}" % fresh("o")); S.append(sc)
         # client timeout (proxy never answers), late answer fails
         sc = Scen(fresh("ctimeout"), "client-timeout-late-answer")
         sid = fresh("sid"); sc.poll(0, sid, "unrestricted"); sc.client(300, "unknown", "{%s}" % fresh("o"), mode=rng.choice(modes))
